@@ -103,7 +103,9 @@ def _ranges(rng, ndim, total_cap=60):
         rngs = []
         for _ in range(ndim):
             lo = rng.randint(-2, 1)
-            hi = lo + rng.randint(1, 3)
+            # a single element in a direction of the lattice is legal (the
+            # FILL card still carries the range, e.g. 0:0)
+            hi = lo + rng.choice([0, 1, 1, 2, 2, 3])
             if big:
                 lo = rng.randint(-9, 6)
                 hi = lo + rng.randint(2, 9)
